@@ -248,7 +248,7 @@ def raw_link(rng, serial, channels, rate, b0, b1, npackets, trim=None, flush_p=0
     return ops, (total if npackets > 0 else 0), {"channels": channels, "rate": rate, "bs0": 1 << b0, "bs1": 1 << b1, "sizes": sizes}
 
 
-def valid_setups(rng, count, combos=None, attempts=6):
+def valid_setups(rng, count, combos=None, attempts=6, sane=False, channels=None):
     """set-up headers the decoder accepts *and* can build a decoder for: candidates from the type-directed
     generator are filtered through the harness (stream c02: three headers + vorbis_synthesis_init).
     Returns a list of dicts {channels, b0, b1, trace, flags}."""
@@ -256,9 +256,9 @@ def valid_setups(rng, count, combos=None, attempts=6):
     combos = combos or [(6, 6), (6, 8), (6, 11), (6, 13), (7, 7), (7, 9), (8, 11), (9, 10)]
     cand = []
     for i in range(count * attempts):
-        ch = rng.choice([1, 2, 2, 3, 6])
+        ch = rng.choice(channels or [1, 2, 2, 3, 6])
         b0, b1 = rng.choice(combos)
-        t, meta = G.gen_setup(rng, ch, 1 << b0, 1 << b1)
+        t, meta = G.gen_setup(rng, ch, 1 << b0, 1 << b1, sane=sane)
         cand.append({"channels": ch, "b0": b0, "b1": b1, "trace": t, "flags": [f[0] for f in t.f if f[2] == "mode.bf"]})
     cases = []
     for i, c in enumerate(cand):
